@@ -10,6 +10,13 @@
    queued first; pop an entry of minimal cost, skip it if its class is tabled, else table the class and queue every
    usage whose children are now all tabled — computes the same table, for every minimal pop discipline (first or last
    among equal costs), with or without pruning of entries whose class is tabled, with fuel 1 + number of nodes.
+   BRIDGE to the concrete extractor model (Extract/ExtractorFacts.v): the and-or graph `agraph cf s` of an e-graph state, the
+   concrete u64-saturating cost functions as instances of the abstract scheme, and (i) under the usages/lookup consistency of
+   the state (executable: usages_okb) and normal-form stability (nf_ok, not executable, assumed) the concrete worklist IS the
+   lazy queue (C06_extractor_is_lazy_queue); (ii) WITHOUT any hypothesis: a table accepted by the executable checker table_okb
+   holds exactly the minimum derivation costs (C06_certified_table_is_minimum) and, with extract_okb, every extracted term
+   costs the table value and no derivation of its class is cheaper (C06_certified_extraction_is_cheapest).  The checkers are
+   evaluated on every explored state (stream `certificate`, machine egtc).
    NOT PROVED: that the concrete extractor model (Extract/Extractor.v, the Gallina mirror of
    src/extract/mod.rs on top of the e-graph model) is an instance of the abstract algorithm, and
    membership of the extracted term.  Per run: best costs of all handles under the three cost
@@ -64,3 +71,28 @@ Print Assumptions C06_lazy_queue_is_knuth.
 Theorem C06_first_and_last_minimum_are_minimal_pops : forall last : bool, min_pop (pop_tb last).
 Proof. exact pop_tb_min_pop. Qed.
 Print Assumptions C06_first_and_last_minimum_are_minimal_pops.
+
+(* the bridge theorems are stated over the e-graph model (binary naturals in scope from here on) *)
+From SE Require Import EGraph.Model Extract.Extractor Extract.ExtractorFacts.
+
+Theorem C06_certified_table_is_minimum : forall (s : egraph) (cf : nat) (m : emap), table_okb s cf m = true ->
+  (forall c k, tbl m c = Some k ->
+     derivable (f_cf cf) (agraph cf s) c k /\ (forall k', derivable (f_cf cf) (agraph cf s) c k' -> (k <= k')%nat)) /\
+  (forall c, tbl m c = None -> forall k, ~ derivable (f_cf cf) (agraph cf s) c k).
+Proof. exact table_okb_sound. Qed.
+Print Assumptions C06_certified_table_is_minimum.
+
+Theorem C06_certified_extraction_is_cheapest : forall (s : egraph) (cf : nat) (m : emap),
+  table_okb s cf m = true -> extract_okb s cf m = true ->
+  forall fuel i t s', extract fuel m i s = Ok (t, s') ->
+  exists i' k, find_applied_id s i = Ok i' /\ cost_rec cf t = Ok k /\ get_best_cost m i' = Ok k /\
+    derivable (f_cf cf) (agraph cf s) (N.to_nat (aid i')) (N.to_nat k) /\
+    (forall k', derivable (f_cf cf) (agraph cf s) (N.to_nat (aid i')) k' -> (N.to_nat k <= k')%nat).
+Proof. exact extract_cheapest_checked. Qed.
+Print Assumptions C06_certified_extraction_is_cheapest.
+
+Theorem C06_extractor_is_lazy_queue : forall (s : egraph) (cf : nat), usages_ok s -> nf_ok s ->
+  forall last m s', extractor_new last cf s = Ok (m, s') ->
+  forall c, tbl m c = lazy_run (f_cf cf) true (pop_tb last) (agraph cf s) c.
+Proof. exact extractor_new_eq_lazy_run. Qed.
+Print Assumptions C06_extractor_is_lazy_queue.
